@@ -14,10 +14,46 @@ FIXED = [
  ("F08", "C09", "9698375", "version 2 headers were parsed with v3-only fields (header_length, feature bits), so valid v2 images with extensions or a backing name failed to open", "regress/C09/v2-header-ext-misparse.json"),
  ("F09", "C10", "680a6e0", "L2Entry::from_mapping asserted compressed length < cluster size and panicked on copy-on-write of a valid compressed cluster whose sector span reaches the cluster size", "regress/C10/compressed-cow-length-assert.json"),
  ("F10", "C07", "177cd10", "u32 overflow in HostCluster::rb_slice_host_end made free_clusters/try_allocate_from loop forever with big clusters and big slices or narrow refcounts", "regress/C07/rb-slice-end-u32-overflow-discard.json"),
+ ("F12", "C07", "59003d2", "AsyncLruCache::commit_wmap looped forever when more slices were being loaded concurrently than the cache limit (livelock without any suspension point)", "regress/C07/commit-wmap-endless-loop.json"),
+ ("F13", "C06", "407237b", "a read running concurrently with the first write to a freshly allocated data cluster returned the stale previous content of that host cluster", "regress/C06/read-sees-stale-new-cluster.json"),
+ ("F14", "C18", "ca77831", "flush_meta cleared need_flush after its last pass, losing the mark of metadata dirtied while that pass was running", "regress/C18/flag-cleared-after-last-pass.json"),
  ("F11", "C03", "c069255", "writing to a zero-flagged cluster with a preallocation leaked the preallocated host cluster", "regress/C03/zero-prealloc-write-leaks.json"),
 ]
 KNOWN = [
  # dicts: id, property, what, rule, tags, msg_contains, reproducer, domain
+ dict(id="C06-discard-not-synchronised-with-inflight-io", property="C06",
+      what="discard running concurrently with other calls: the host cluster is released (refcount 0, allocatable again) "
+           "before its hole punch and while reads/writes that looked up the old mapping are still in flight, so guest data "
+           "lands in, or is wiped from, a host cluster already re-allocated to another guest cluster (history contains a batch "
+           "in which a discard runs concurrently with other calls)",
+      rules=["ReadData", "Frame", "Reopen"], tags=["hist:concurrent_discard"],
+      reproducer="findings/C06-discard-race.json", domain="conc"),
+ dict(id="C06-slice-eviction-under-concurrency", property="C06",
+      what="metadata caches smaller than the set of slices in use: AsyncLruCache evicts slices while several tasks run "
+           "(__pop_lru falls back to entries still held; a dirty victim is written back after it left the map), so updates made "
+           "through an evicted entry are lost or a stale copy is reloaded and acknowledged writes read back old data "
+           "(history contains an eviction during a concurrent batch)",
+      rules=["ReadData", "Frame", "Reopen"], tags=["hist:eviction_during_concurrency"],
+      reproducer="findings/C06-eviction-race.json", domain="conc"),
+ dict(id="C07-slice-eviction-under-concurrency", property="C07",
+      what="same root cause as C06-slice-eviction-under-concurrency: with slices evicted while several tasks run, calls with "
+           "valid arguments fail with 'Fail to load l2 table' (entry evicted between insertion and re-lookup) or tasks "
+           "deadlock on slice locks (history contains an eviction during a concurrent batch)",
+      rules=["ApiErr", "DiscardErr", "Deadlock", "Budget"], tags=["hist:eviction_during_concurrency"],
+      reproducer="findings/C07-eviction-race.json", domain="conc"),
+ dict(id="C07-discard-not-synchronised-with-inflight-io", property="C07",
+      what="same root cause as C06-discard-not-synchronised-with-inflight-io: a host cluster released by a concurrent discard "
+           "is re-allocated (e.g. as an L2 table) while older requests still target it; later calls trip over the damaged "
+           "metadata and panic ('Cannot decrease refcount below 0'), fail or block (history contains a batch in which a discard "
+           "runs concurrently with other calls)",
+      rules=["Panic", "ApiErr", "DiscardErr", "Deadlock", "Budget", "ReopenOpen"], tags=["hist:concurrent_discard"],
+      reproducer="findings/C07-discard-race.json", domain="conc"),
+ dict(id="C18-slice-eviction-under-concurrency", property="C18",
+      what="same root cause as C06-slice-eviction-under-concurrency: an update made through a slice evicted while several "
+           "tasks run is lost from the cache, so after flush_meta the flag is false although file and memory disagree "
+           "(history contains an eviction during a concurrent batch)",
+      rules=["NeedFlush"], tags=["hist:eviction_during_concurrency"],
+      reproducer="findings/C18-eviction-race.json", domain="conc"),
 ]
 def main():
     out = []
